@@ -227,7 +227,7 @@ def replay_entries(rep):
 def main(tier):
     common.build()
     rep = Report(PROP, tier, 'exploration')
-    count, k, t, nproc = (120, 8, 8, 2) if tier == 'quick' else (800, 30, 16, 3)
+    count, k, t, nproc = (120, 8, 8, 2) if tier == 'quick' else (500, 24, 16, 3)
     rep.rule = (f'one evaluation = one (program, annotate flag): K={k} sequential runs in one process + T={t} concurrent threads + a run after a conflicting program in the '
                 f'same process + P={nproc} fresh processes, all on identical arguments; held iff one verdict and one byte-identical output; distinct = distinct (origin, verdict, flag, '
                 'output-size bucket); non-trivial = at least K+T runs were compared')
@@ -236,8 +236,8 @@ def main(tier):
     replay_entries(rep)
     for d in run_shards(shard, (count, k, t, nproc)):
         rep.merge(d)
-    floors = [('enough programs whose output has a multi-member Union (30 quick / 200 thorough)', rep.cov.get('outputs-with-union', 0) >= (30 if tier == 'quick' else 200)),
-              ('enough outputs with >= 6 class members (30 quick / 200 thorough)', rep.cov.get('outputs-with-6+-class-members', 0) >= (30 if tier == 'quick' else 200)),
+    floors = [('enough programs whose output has a multi-member Union (30 quick / 100 thorough)', rep.cov.get('outputs-with-union', 0) >= (30 if tier == 'quick' else 100)),
+              ('enough outputs with >= 6 class members (30 quick / 100 thorough)', rep.cov.get('outputs-with-6+-class-members', 0) >= (30 if tier == 'quick' else 100)),
               ('>= 10 multi-file projects', rep.cov.get('multi-file', 0) >= 10),
               ('>= 2500 executions compared', rep.cov.get('executions', 0) >= 2500)]
     return rep.finish(floors, extra_cov={'K': k, 'T': t, 'P': nproc})
